@@ -60,7 +60,7 @@ NEPS_PER_CASE = 6
 def plan(tier):
     if tier == 'thorough':
         return dict(shards=16, cases=1200, timeout=2400, budget_s=540)
-    return dict(shards=8, cases=45, timeout=600, budget_s=60)
+    return dict(shards=8, cases=60, timeout=600, budget_s=65)
 
 
 def selftest():
@@ -178,7 +178,7 @@ MIX = {
 }
 
 
-def force_options(ep, o, rng):
+def force_options(ep, o, rng, shape):
     """Make sure the optional inputs that take part in unit mixing are actually passed."""
     o = dict(o)
     if ep.name in ('aperture_photometry', 'ApertureStats', 'profiles', 'PSFPhotometry'):
@@ -190,8 +190,16 @@ def force_options(ep, o, rng):
     if ep.name == 'detect_threshold':
         o['bkg'] = 'array' if o['bkg'] is None else o['bkg']
         o['err'] = 'array' if o['err'] is None else o['err']
-    if ep.name == 'make_model_image' and o['local_bkg'] is None:
-        o['local_bkg'] = np.full(len(o['flux']), 0.5)
+    if ep.name == 'make_model_image':
+        if o['local_bkg'] is None:
+            o['local_bkg'] = np.full(len(o['flux']), 0.5)
+        # the unit of local_bkg only meets the unit of the flux when a source is actually rendered: keep every source
+        # inside the frame (a table whose sources all miss the image is accepted without any unit arithmetic)
+        ny, nx = shape
+        xy = np.array(o['xy'], dtype=float)
+        xy[:, 0] = np.clip(xy[:, 0], 12.0, nx - 13.0)
+        xy[:, 1] = np.clip(xy[:, 1], 12.0, ny - 13.0)
+        o['xy'] = xy
     if ep.name == 'PSFPhotometry':
         o['finder'] = False
     return o
@@ -415,7 +423,7 @@ def run_case(case):
             if 'brightest' in o1:
                 o1['brightest'] = None
         if variant == 'mixed_units':
-            o1 = force_options(ep, o1, rng)
+            o1 = force_options(ep, o1, rng, scene['mask'].v.shape)
             mech = {'entry': ep.name, 'relation': 'repr:mixed_units'}
             base = _call(case, ep, gen.unwrap(scene), dict(o1), dict(mech, output='*'), 'base')
             if base is None:
